@@ -30,6 +30,7 @@ inductive RowV where
   | nps (r : NpSide)
   | mb (r : MailboxRow)
   | mbs (r : MbSide)
+  | msg (r : Message)
   deriving Repr, DecidableEq
 
 /-- the dict: column name -> value -/
@@ -38,6 +39,7 @@ def RowV.toRow : RowV → Row
   | .nps r => r.toRow
   | .mb r => r.toRow
   | .mbs r => r.toRow
+  | .msg r => r.toRow
 
 inductive SV where
   | none
@@ -50,6 +52,7 @@ inductive SV where
   | rows (l : List RowV)
   | usage (fields : List (String × PySum.SV))   -- a `Usage(started=…, …)` namedtuple
   | cv (impl version : Option String)           -- the `client_version` pair of a `bind`
+  | msgs (l : List (String × Val × Val × Int × Val))   -- a list of SidedMessage (side, phase, body, server_rx, msg_id)
   deriving Repr, DecidableEq
 
 def SV.ofCell : Cell → SV
@@ -70,6 +73,7 @@ def SV.toCell : SV → Cell
   | .rows _ => .null
   | .usage _ => .null
   | .cv .. => .null
+  | .msgs _ => .null
 
 inductive XE where
   | none_ | true_ | false_
@@ -79,6 +83,8 @@ inductive XE where
   | attr (e : XE) (f : String)         -- u.started / u.result / … of a Usage
   | index (e : XE) (i : Nat)           -- client_version[0] / client_version[1]
   | mul (a b : XE)
+  /-- `SidedMessage(side=…, phase=…, body=…, server_rx=…, msg_id=…)` -/
+  | mkMsg (side phase body rx id : XE)
   | floordiv (a b : XE)
   | var (v : String)                   -- a local
   | selfAttr (a : String)              -- self._app_id / self._mailbox_id / self._usage_db
@@ -104,6 +110,10 @@ inductive XS where
   | call (into : Option String) (meth : String) (target : Option XE) (args : List XE)
   /-- `for v in X.execute(stmt, args).fetchall(): body` -/
   | forExec (v : String) (stmt : String) (args : List XE) (body : List XS)
+  /-- `v = []` -/
+  | listNew (v : String)
+  /-- `v.append(e)` -/
+  | listAppend (v : String) (e : XE)
   /-- `for (send_f, stop_f) in self._listeners.values(): stop_f()` + `self._listeners = {}` (Mailbox.close) -/
   | stopListeners
   | commit
@@ -163,6 +173,15 @@ def truthy : SV → Bool
   | .rows l => !l.isEmpty
   | .usage _ => true
   | .cv .. => true
+  | .msgs l => !l.isEmpty
+
+/-- a stored scalar (NULL / text / integer) read back from a row -/
+def svVal : SV → Option Val
+  | .none => some .null
+  | .str x => some (.str x)
+  | .int i => some (.int i)
+  | .val v => some v
+  | _ => Option.none
 
 def optStrSV : Option String → SV
   | some x => .str x
@@ -206,6 +225,11 @@ def eval (ctx : Ctx) (s : Sys) (env : Env) : XE → SV
   | .index e i => (match eval ctx s env e with
     | .cv impl version => if i = 0 then optStrSV impl else if i = 1 then optStrSV version else .none
     | _ => .none)
+  | .mkMsg side phase body rx id =>
+    (match eval ctx s env side, svVal (eval ctx s env phase), svVal (eval ctx s env body), eval ctx s env rx,
+        svVal (eval ctx s env id) with
+     | .str sd, some p, some b, .int t, some i => .msg sd p b t i
+     | _, _, _, _, _ => .none)
   | .mul a b => (match eval ctx s env a, eval ctx s env b with
     | .int x, .int y => .int (x * y)
     | _, _ => .none)
@@ -253,6 +277,13 @@ def logClientStmt (s : Sys) (args : List SV) : ExecRes :=
      | some impl, some version =>
        .ok (s.modUdb (fun d => { d with clients := d.clients ++ [⟨app, side, t, impl, version⟩] })) .none
      | _, _ => .raised s "TypeError")
+  | _ => .raised s "TypeError"
+
+/-- the SELECT of `get_messages`: the stored messages of the mailbox in `server_rx` order -/
+def getMessagesStmt (s : Sys) (args : List SV) : ExecRes :=
+  match args with
+  | [.str app, .str mb] =>
+    .ok s (.rows (((s.db.messagesOf app mb).mergeSort (fun a b => decide (a.rx ≤ b.rx))).map .msg))
   | _ => .raised s "TypeError"
 
 /-- **the statement table**: the model primitive (Store.lean) each named statement of server.py is; a SELECT gives its
@@ -366,6 +397,7 @@ def stmtSem (s : Sys) (stmt : String) (args : List SV) : ExecRes :=
        .ok (s.modUdb (fun d => { d with mailboxes := d.mailboxes ++ [⟨app, forNp, started, total, some w, result⟩] })) .none
      | _ => .raised s "TypeError")
   else if stmt = "AppNamespace_log_client_version__insert_client_versions_0" then logClientStmt s args
+  else if stmt = "Mailbox_get_messages__select_messages_0" then getMessagesStmt s args
   else .raised s "NotInTable"
 
 /-- what `cursor.<fetch>` of a statement's result is -/
@@ -424,6 +456,11 @@ def execS (callee : Callee) (ctx : Ctx) : XS → St → Res
        l.foldl (loopStepWith (execL callee ctx body) v) (.normal ⟨s, st.env⟩)
      | .ok s _ => .exc s "TypeError"
      | .raised s cls => .exc s cls)
+  | .listNew v, st => .normal ⟨st.s, setVar st.env v (.msgs [])⟩
+  | .listAppend v e, st =>
+    (match (st.env.lookup v).getD .none, eval ctx st.s st.env e with
+     | .msgs l, .msg sd p b t i => .normal ⟨st.s, setVar st.env v (.msgs (l ++ [(sd, p, b, t, i)]))⟩
+     | _, _ => .exc st.s "TypeError")
   | .stopListeners, st => .normal ⟨st.s.stopListeners ctx.app ctx.mailbox, st.env⟩
   | .commit, st => .normal ⟨st.s.commit, st.env⟩
   | .ucommit, st => .normal ⟨st.s.ucommit, st.env⟩
